@@ -10,7 +10,7 @@ pub fn cfg(tier: &str) -> FaultCfg {
         torn: TornMode::Off,
         io_faults: false,
         with_contig: false,
-        cont_depth: if tier == "quick" { 1 } else { 2 },
+        cont_depth: 2,
         double_fault: tier != "quick",
         check_secret: false,
         thin_over: 0,
